@@ -738,7 +738,7 @@ class Histogram:
         self.error_ = np.sqrt(variance).reshape(1, -1)
         self.systematic_error_ = np.sqrt(
             np.average(self.systematic_error_**2.0, axis=0, weights=weights)
-        )
+        ).reshape(1, -1)
         self.histogram_raw_count_ = np.sum(self.histograms_raw_count_, axis=0)
         self.scaling_ = np.asarray(self.scaling_[0])
 
@@ -806,10 +806,10 @@ class Histogram:
         self.histograms_ = average
         self.error_ = np.sqrt(
             1.0 / np.sum(1.0 / np.square(self.error_), axis=0)
-        )
+        ).reshape(1, -1)
         self.systematic_error_ = np.sqrt(
             np.average(self.systematic_error_**2.0, axis=0, weights=weights)
-        )
+        ).reshape(1, -1)
         self.histogram_raw_count_ = np.sum(self.histograms_raw_count_, axis=0)
         self.scaling_ = np.asarray(self.scaling_[0])
 
